@@ -191,6 +191,9 @@ def r06e(F):
 	bcf = F.func(MON + 'block_confirmed')
 	upd = set(sites_call(bcf, [OTX + 'update_claims_view_from_requests']))
 	out += P5_must_pass(F, '06.e', bcf, [0], bcf.return_blocks(), upd, 'OnchainTxHandler::update_claims_view_from_requests')
+	# every package collected by the spend checks is returned at every exit that follows the first insertion
+	for callee in ('check_spend_counterparty_transaction', 'check_spend_counterparty_htlc', 'get_counterparty_output_claim_info'):
+		out += P_accum_returned(F, '06.e', MON + callee)
 	# the claim requests handed over are the ones collected
 	ex = Expr(bcf)
 	for b in upd:
